@@ -23,8 +23,8 @@ def splitmix64(*xs):
     return z
 
 
-TOPOLOGIES = ["T1", "T2", "T3", "T4r", "T4g", "T5num", "T5ca", "T5filter", "T5bad", "T6", "T7", "T8"]
-TOPOLOGY_WEIGHTS = [10, 18, 10, 8, 12, 7, 6, 5, 4, 8, 6, 6]
+TOPOLOGIES = ["T1", "T2", "T3", "T4r", "T4g", "T5num", "T5ca", "T5filter", "T5bad", "T6", "T7", "T8", "T9"]
+TOPOLOGY_WEIGHTS = [10, 18, 10, 8, 12, 7, 6, 5, 4, 8, 6, 6, 5]
 
 _groups = None
 
@@ -405,6 +405,29 @@ def generate(run_seed, tier_cfg):
         by_form = {args[a]["form"]: a for a in sorted(args) if args[a]["kind"] == "response"}
         if "asis" in by_form and "toggle" in by_form and rnd.random() < 0.6:
             args[by_form["toggle"]] = {"kind": "response", "view_of": by_form["asis"], "form": "toggle"}
+    elif topo == "T9":
+        # a "deck": many tables rendered one after the other with ONE default analysis and a
+        # fixed script of reads per table (what an exporter does all day)
+        n = rnd.randint(4, 8)
+        names = [_pick_corpus(rnd, knobs) for _ in range(n)]
+        for k, nm in enumerate(names):
+            args["r%d" % k] = _response_arg(rnd, knobs, nm)
+        if rnd.random() < 0.5:
+            args["t0"] = _transforms_arg(rnd, knobs, _meta_for(args["r0"]))
+        else:
+            generic = {"rows_dimension": {"prune": rnd.choice([True, False])},
+                       "columns_dimension": {"prune": rnd.choice([True, False])}}
+            if rnd.random() < 0.5:
+                generic["pairwise_indices"] = {"alpha": rnd.choice([[0.05], [0.05, 0.01]]), "only_larger": rnd.choice([True, False])}
+            args["t0"] = {"kind": "transforms", "json": json.dumps(generic)}
+        for k in range(n):
+            if k + 1 < n and rnd.random() < 0.25:
+                specs["s%d" % k] = {"type": "cubeset", "members": [["r%d" % k, "t0"], ["r%d" % (k + 1), "t0"]], **scal}
+            else:
+                specs["s%d" % k] = _cube_spec(rnd, "r%d" % k, "t0", scal)
+        knobs["mode"] = "deck"
+        knobs["max_steps"] = rnd.choice(tier_cfg.get("sweep_steps", [150, 220]))
+        knobs["deck_script"] = rnd.choice(["exporter", "alphabetical", "reverse"])
     elif topo == "T8":
         # per-dimension transform dicts composed into per-table transforms: the dict object
         # written for the rows of one table is the columns dict of another
